@@ -10,6 +10,7 @@
 (* total and named; every event is consumed exactly once (POSTCONDITION).  *)
 (***************************************************************************)
 EXTENDS G3DSession, Json, IOUtils
+SE == INSTANCE SequencesExt
 
 Traces == JsonDeserialize(IOEnv.TRACE_FILE)         \* a sequence of sessions, each a sequence of events
 VARIABLES tid, l, bad
@@ -50,7 +51,7 @@ TraceSnap   == /\ E.ev = "snap" /\ UNCHANGED <<heap, orig, disp, args, ncopy, hi
 TraceNext == tid <= Len(Traces) /\ (TraceReset \/ TraceCreate \/ TraceCopy \/ TraceMove \/ TraceQuery \/ TraceSnap) /\ Advance
 TraceInit == tid = 1 /\ l = 1 /\ bad = <<>> /\ heap = <<>> /\ orig = <<>> /\ disp = <<>> /\ args = <<>> /\ ncopy = <<>> /\ hist = <<>>
 TraceSpec == TraceInit /\ [][TraceNext]_tvars
-NEvents == LET RECURSIVE S(_) S(i) == IF i > Len(Traces) THEN 0 ELSE Len(Traces[i]) + S(i + 1) IN S(1)
+NEvents == SE!FoldLeft(LAMBDA acc, s : acc + Len(s), 0, Traces)        \* (iterative: a recursive sum overflows the Java stack on thousands of sessions)
 Report == tid <= Len(Traces) \/ PrintT(ToJson([sessions |-> Len(Traces), events |-> NEvents, bad |-> bad]))
 \* the Session invariants hold along every recorded session as well
 TraceDispInv == \A i \in DOMAIN heap : heap[i] = Translate(orig[i], disp[i])
